@@ -1,22 +1,25 @@
 /-
-  Helper lemmas for C15 (model: CRModel/WriterSM.lean).
+  Helper lemmas for C15 (model: CRModel/WriterSM.lean): the loops over the mutable document are related to the pure
+  specification `mkNodes` / `render`; the `with`-block restores the global precision; frame facts.
 -/
 import CRModel.WriterSM
 namespace CR.Writer
 
-variable {Input Node Bytes : Type}
+variable {Input Item Node Bytes Date Content : Type}
 
 /-- The constructor arguments a writer object carries. -/
-def Writer.args (w : Writer Input Node) : Format × Input × Nat := (w.fmt, w.inp, w.prec)
+def Writer.args (w : Writer Input Node Date) : Format × Input × Nat := (w.fmt, w.inp, w.prec)
 
 /-- Constructor arguments of all writer objects of a process, in order of construction. -/
-def argsOf (st : Proc Input Node Bytes) : List (Format × Input × Nat) := st.ws.map Writer.args
+def argsOf (st : St Input Node Bytes Date) : List (Format × Input × Nat) := st.ws.map Writer.args
 
 /-- The constructor arguments appearing in a history, in order. -/
-def newsOf : List (Op Input) → List (Format × Input × Nat)
+def newsOf : List (Op Input Date) → List (Format × Input × Nat)
   | [] => []
   | .new f i p :: r => (f, i, p) :: newsOf r
-  | .write _ _ _ _ _ :: r => newsOf r
+  | .write _ _ _ _ _ _ :: r => newsOf r
+
+/-! ### lists -/
 
 theorem map_set_same {α β : Type} (f : α → β) :
     ∀ (l : List α) (i : Nat) (w w' : α), l[i]? = some w → f w' = f w → (l.set i w').map f = l.map f
@@ -29,19 +32,332 @@ theorem map_set_same {α β : Type} (f : α → β) :
     simp at h
     simp [map_set_same f l i w w' h hf]
 
-/-- Everything a write call can do, for either variant of the code. -/
-theorem writeStep_cases (sem : Sem) (c : Codec Input Node Bytes) (st : Proc Input Node Bytes)
-    (i : Nat) (kind : Kind) (file : Option String) (mode : Mode) (a : Bool) :
-    ∀ r, writeStep sem c st i kind file mode a = r →
+theorem get_set_self {α : Type} : ∀ (l : List α) (i : Nat) (x y : α), l[i]? = some y → (l.set i x)[i]? = some x
+  | [], _, _, _, h => by simp at h
+  | _ :: _, 0, _, _, _ => by simp
+  | _ :: l, i + 1, x, y, h => by
+    simp at h
+    simpa using get_set_self l i x y h
+
+theorem set_set_same {α : Type} : ∀ (l : List α) (i : Nat) (x y : α), (l.set i x).set i y = l.set i y
+  | [], _, _, _ => by simp
+  | _ :: _, 0, _, _ => by simp
+  | _ :: l, i + 1, x, y => by simp [set_set_same l i x y]
+
+theorem set_get_same {α : Type} : ∀ (l : List α) (i : Nat) (x : α), l[i]? = some x → l.set i x = l
+  | [], _, _, h => by simp at h
+  | a :: l, 0, x, h => by
+    simp at h
+    simp [h]
+  | a :: l, i + 1, x, h => by
+    simp at h
+    simp [set_get_same l i x h]
+
+theorem getElem?_append_some {α : Type} (l t : List α) (i : Nat) (x : α) (h : l[i]? = some x) :
+    (l ++ t)[i]? = some x := by
+  have hi : i < l.length := by
+    rcases Nat.lt_or_ge i l.length with hlt | hge
+    · exact hlt
+    · simp [List.getElem?_eq_none hge] at h
+  rw [List.getElem?_append_left hi]
+  exact h
+
+/-! ### replacing a writer object -/
+
+theorem setWriter_get (st : St Input Node Bytes Date) (i : Nat) (w w' : Writer Input Node Date)
+    (h : st.ws[i]? = some w) : (setWriter st i w').ws[i]? = some w' :=
+  get_set_self st.ws i w' w h
+
+theorem setWriter_setWriter (st : St Input Node Bytes Date) (i : Nat) (w1 w2 : Writer Input Node Date) :
+    setWriter (setWriter st i w1) i w2 = setWriter st i w2 := by
+  simp [setWriter]
+
+theorem setWriter_self (st : St Input Node Bytes Date) (i : Nat) (w : Writer Input Node Date)
+    (h : st.ws[i]? = some w) : setWriter st i w = st := by
+  cases st
+  simp only [setWriter] at *
+  rw [set_get_same _ i w h]
+
+@[simp] theorem setWriter_gprec (st : St Input Node Bytes Date) (i : Nat) (w : Writer Input Node Date) :
+    (setWriter st i w).gprec = st.gprec := rfl
+
+@[simp] theorem setWriter_fs (st : St Input Node Bytes Date) (i : Nat) (w : Writer Input Node Date) :
+    (setWriter st i w).fs = st.fs := rfl
+
+theorem setWriter_argsOf (st : St Input Node Bytes Date) (i : Nat) (w w' : Writer Input Node Date)
+    (h : st.ws[i]? = some w) (ha : w'.args = w.args) : argsOf (setWriter st i w') = argsOf st :=
+  map_set_same Writer.args st.ws i w w' h ha
+
+/-! ### the pure specification -/
+
+theorem mkNodes_append (mk : Item → Res Node) :
+    ∀ (a b : List Item), mkNodes mk (a ++ b) =
+      (match mkNodes mk a with
+       | .error e => .error e
+       | .ok x => match mkNodes mk b with
+         | .error e => .error e
+         | .ok y => .ok (x ++ y))
+  | [], b => by
+    simp only [List.nil_append, mkNodes]
+    cases mkNodes mk b <;> simp
+  | it :: a, b => by
+    simp only [List.cons_append, mkNodes]
+    cases mk it with
+    | error e => rfl
+    | ok n =>
+      simp only
+      rw [mkNodes_append mk a b]
+      cases mkNodes mk a with
+      | error e => rfl
+      | ok x =>
+        simp only
+        cases mkNodes mk b <;> simp
+
+/-- A protobuf creator formats no float as text: the precision is irrelevant. -/
+theorem creator_pb (c : Codec Input Item Node Bytes Date Content) (p q : Nat) :
+    creator c Format.pb p = creator c Format.pb q := by
+  funext it
+  rfl
+
+/-! ### the loops over the mutable document -/
+
+/-- A state that differs from `st` only in the document (date, children) of writer `i`. -/
+def DocOf (st : St Input Node Bytes Date) (i : Nat) (w : Writer Input Node Date) (d : Option Date) (ns : List Node) :
+    St Input Node Bytes Date := setWriter st i { w with date := d, root := ns }
+
+/-- The append loop, run in a state where the global precision is `st.gprec` throughout, appends exactly
+    `mkNodes (creator … st.gprec)` to the document — or stops at the first exception with a prefix appended. -/
+theorem appendItems_spec (c : Codec Input Item Node Bytes Date Content) :
+    ∀ (items : List Item) (st : St Input Node Bytes Date) (i : Nat) (w : Writer Input Node Date),
+      st.ws[i]? = some w →
+      (match mkNodes (creator c w.fmt st.gprec) items with
+       | .ok ns => appendItems c st i items = (DocOf st i w w.date (w.root ++ ns), none)
+       | .error e => ∃ ns', appendItems c st i items = (DocOf st i w w.date (w.root ++ ns'), some e))
+  | [], st, i, w, hw => by
+    simp only [mkNodes, appendItems, List.append_nil, DocOf]
+    rw [show ({ w with date := w.date, root := w.root } : Writer Input Node Date) = w by cases w; rfl]
+    rw [setWriter_self st i w hw]
+  | it :: r, st, i, w, hw => by
+    simp only [mkNodes, appendItems, appendItem, hw]
+    cases hc : creator c w.fmt st.gprec it with
+    | error e =>
+      refine ⟨[], ?_⟩
+      simp only [List.append_nil, DocOf]
+      rw [show ({ w with date := w.date, root := w.root } : Writer Input Node Date) = w by cases w; rfl]
+      rw [setWriter_self st i w hw]
+    | ok n =>
+      simp only
+      have hw1 := setWriter_get st i w { w with root := w.root ++ [n] } hw
+      have ih := appendItems_spec c r (setWriter st i { w with root := w.root ++ [n] }) i _ hw1
+      simp only [setWriter_gprec] at ih
+      cases hm : mkNodes (creator c w.fmt st.gprec) r with
+      | error e =>
+        rw [hm] at ih
+        obtain ⟨ns', h⟩ := ih
+        refine ⟨n :: ns', ?_⟩
+        rw [h]
+        simp [DocOf, setWriter_setWriter]
+      | ok ns =>
+        rw [hm] at ih
+        simp only at ih ⊢
+        rw [ih]
+        simp [DocOf, setWriter_setWriter]
+
+/-- Header + the one or two loops: the document becomes date + `mkNodes` of all objects of this call. -/
+theorem buildDocument_spec (c : Codec Input Item Node Bytes Date Content) (st : St Input Node Bytes Date) (i : Nat)
+    (w : Writer Input Node Date) (kind : Kind) (date : Date) (hw : st.ws[i]? = some w) :
+    (match mkNodes (creator c w.fmt st.gprec) (itemsOf c w.inp kind) with
+     | .ok ns => buildDocument c st i w.inp kind date = (DocOf st i w (some date) (w.root ++ ns), none)
+     | .error e => ∃ ns', buildDocument c st i w.inp kind date = (DocOf st i w (some date) (w.root ++ ns'), some e)) := by
+  have hh : writeHeader st i date = setWriter st i { w with date := some date } := by simp [writeHeader, hw]
+  have hw1 := setWriter_get st i w { w with date := some date } hw
+  have h1 := appendItems_spec c (c.scItems w.inp) (setWriter st i { w with date := some date }) i _ hw1
+  simp only [setWriter_gprec] at h1
+  unfold buildDocument
+  simp only [hh]
+  cases kind with
+  | scenarioOnly =>
+    simp only [itemsOf]
+    cases hm : mkNodes (creator c w.fmt st.gprec) (c.scItems w.inp) with
+    | error e =>
+      rw [hm] at h1
+      obtain ⟨ns', h⟩ := h1
+      refine ⟨ns', ?_⟩
+      rw [h]
+      simp [DocOf, setWriter_setWriter]
+    | ok ns =>
+      rw [hm] at h1
+      simp only at h1 ⊢
+      rw [h1]
+      simp [DocOf, setWriter_setWriter]
+  | full =>
+    simp only [itemsOf]
+    rw [mkNodes_append]
+    cases hm : mkNodes (creator c w.fmt st.gprec) (c.scItems w.inp) with
+    | error e =>
+      rw [hm] at h1
+      obtain ⟨ns', h⟩ := h1
+      refine ⟨ns', ?_⟩
+      rw [h]
+      simp [DocOf, setWriter_setWriter]
+    | ok ns =>
+      rw [hm] at h1
+      simp only at h1 ⊢
+      rw [h1]
+      simp only [DocOf, setWriter_setWriter]
+      have hw2 := setWriter_get st i w { w with date := some date, root := w.root ++ ns } hw
+      have h2 := appendItems_spec c (c.ppItems w.inp) (setWriter st i { w with date := some date, root := w.root ++ ns }) i _ hw2
+      simp only [setWriter_gprec] at h2
+      cases hm2 : mkNodes (creator c w.fmt st.gprec) (c.ppItems w.inp) with
+      | error e =>
+        rw [hm2] at h2
+        obtain ⟨ns', h⟩ := h2
+        refine ⟨ns ++ ns', ?_⟩
+        rw [h]
+        simp [DocOf, setWriter_setWriter, List.append_assoc]
+      | ok ns2 =>
+        rw [hm2] at h2
+        simp only at h2 ⊢
+        rw [h2]
+        simp [DocOf, setWriter_setWriter, List.append_assoc]
+
+/-! ### frame: what building a document cannot touch -/
+
+/-- Same files, same constructor arguments of all writers, same global precision. -/
+def Frame (st st' : St Input Node Bytes Date) : Prop :=
+  st'.fs = st.fs ∧ argsOf st' = argsOf st ∧ st'.gprec = st.gprec
+
+theorem Frame.refl (st : St Input Node Bytes Date) : Frame st st := ⟨rfl, rfl, rfl⟩
+
+theorem Frame.trans {a b d : St Input Node Bytes Date} (h1 : Frame a b) (h2 : Frame b d) : Frame a d :=
+  ⟨h2.1.trans h1.1, h2.2.1.trans h1.2.1, h2.2.2.trans h1.2.2⟩
+
+theorem DocOf_frame (st : St Input Node Bytes Date) (i : Nat) (w : Writer Input Node Date) (d : Option Date)
+    (ns : List Node) (hw : st.ws[i]? = some w) : Frame st (DocOf st i w d ns) :=
+  ⟨rfl, setWriter_argsOf st i w _ hw rfl, rfl⟩
+
+theorem freshDocument_frame (st : St Input Node Bytes Date) (i : Nat) : Frame st (freshDocument st i) := by
+  unfold freshDocument
+  cases hw : st.ws[i]? with
+  | none => exact Frame.refl st
+  | some w => exact DocOf_frame st i w none [] hw
+
+theorem buildDocument_frame (c : Codec Input Item Node Bytes Date Content) (st : St Input Node Bytes Date) (i : Nat)
+    (w : Writer Input Node Date) (kind : Kind) (date : Date) (hw : st.ws[i]? = some w) :
+    Frame st (buildDocument c st i w.inp kind date).1 := by
+  have h := buildDocument_spec c st i w kind date hw
+  cases hm : mkNodes (creator c w.fmt st.gprec) (itemsOf c w.inp kind) with
+  | error e =>
+    rw [hm] at h
+    obtain ⟨ns', h⟩ := h
+    rw [h]
+    exact DocOf_frame st i w _ _ hw
+  | ok ns =>
+    rw [hm] at h
+    simp only at h
+    rw [h]
+    exact DocOf_frame st i w _ _ hw
+
+/-- The `with`-block: whatever the body does to the global precision — and whether or not it raises — the value from
+    before the block is back afterwards (the `finally`); without the block (`legacy`) a body that keeps it, keeps it. -/
+theorem withOwnPrecision_frame (sem : Sem) (st : St Input Node Bytes Date) (own : Nat)
+    (body : St Input Node Bytes Date → St Input Node Bytes Date × Option Err)
+    (h1 : Frame { st with gprec := own } (body { st with gprec := own }).1)
+    (h2 : Frame st (body st).1) : Frame st (withOwnPrecision sem st own body).1 := by
+  unfold withOwnPrecision
+  split
+  · exact ⟨h1.1, h1.2.1, rfl⟩
+  · exact h2
+
+/-! ### a write call -/
+
+theorem buildFor_frame (sem : Sem) (c : Codec Input Item Node Bytes Date Content) (st : St Input Node Bytes Date)
+    (i : Nat) (w : Writer Input Node Date) (kind : Kind) (date : Date) (hw : st.ws[i]? = some w) :
+    Frame st (buildFor sem c st i w kind date).1 := by
+  -- the state after the optional fresh document, and the writer object in it
+  have key : ∀ st1 : St Input Node Bytes Date, ∀ w1 : Writer Input Node Date, Frame st st1 → st1.ws[i]? = some w1 →
+      w1.inp = w.inp →
+      Frame st (match w.fmt with
+        | .xml => withOwnPrecision sem st1 w.prec (fun s => buildDocument c s i w.inp kind date)
+        | .pb => buildDocument c st1 i w.inp kind date).1 := by
+    intro st1 w1 hfr hw1 hinp
+    cases w.fmt with
+    | pb =>
+      simp only
+      rw [← hinp]
+      exact hfr.trans (buildDocument_frame c st1 i w1 kind date hw1)
+    | xml =>
+      simp only
+      refine hfr.trans (withOwnPrecision_frame sem st1 w.prec _ ?_ ?_)
+      · rw [← hinp]
+        exact buildDocument_frame c { st1 with gprec := w.prec } i w1 kind date hw1
+      · rw [← hinp]
+        exact buildDocument_frame c st1 i w1 kind date hw1
+  unfold buildFor
+  by_cases hcond : (w.fmt == Format.pb || sem.freshRoot) = true
+  · simp only [hcond, if_true]
+    have hf : freshDocument st i = setWriter st i { w with date := none, root := [] } := by simp [freshDocument, hw]
+    have hw0 := setWriter_get st i w { w with date := none, root := [] } hw
+    rw [← hf] at hw0
+    exact key _ { w with date := none, root := [] } (freshDocument_frame st i) hw0 rfl
+  · simp only [hcond]
+    exact key st w (Frame.refl st) hw rfl
+
+/-- Reset + install + header + loops + restore = the pure `mkNodes` at the writer's OWN precision, in a document that
+    holds nothing else (code as it is now). -/
+theorem buildFor_repaired (c : Codec Input Item Node Bytes Date Content) (st : St Input Node Bytes Date) (i : Nat)
+    (w : Writer Input Node Date) (kind : Kind) (date : Date) (hw : st.ws[i]? = some w) :
+    (match mkNodes (creator c w.fmt w.prec) (itemsOf c w.inp kind) with
+     | .ok ns => buildFor repaired c st i w kind date = (DocOf st i w (some date) ns, none)
+     | .error e => (buildFor repaired c st i w kind date).2 = some e) := by
+  have hf : freshDocument st i = setWriter st i { w with date := none, root := [] } := by simp [freshDocument, hw]
+  have hw0 := setWriter_get st i w { w with date := none, root := [] } hw
+  unfold buildFor
+  simp only [repaired, Bool.or_true, if_true]
+  cases hfmt : w.fmt with
+  | pb =>
+    simp only
+    have h := buildDocument_spec c (freshDocument st i) i _ kind date (hf ▸ hw0)
+    rw [hf] at h ⊢
+    simp only [setWriter_gprec, hfmt] at h ⊢
+    rw [creator_pb c st.gprec w.prec] at h
+    cases hm : mkNodes (creator c Format.pb w.prec) (itemsOf c w.inp kind) with
+    | error e =>
+      rw [hm] at h
+      obtain ⟨ns', h⟩ := h
+      simp only [h]
+    | ok ns =>
+      rw [hm] at h
+      simp only at h ⊢
+      rw [h]
+      simp [DocOf, setWriter_setWriter, hfmt]
+  | xml =>
+    simp only [withOwnPrecision, if_true]
+    have hw1 : ({ freshDocument st i with gprec := w.prec } : St Input Node Bytes Date).ws[i]? =
+        some { w with date := none, root := [] } := by rw [hf]; exact hw0
+    have h := buildDocument_spec c { freshDocument st i with gprec := w.prec } i _ kind date hw1
+    simp only [hfmt] at h ⊢
+    cases hm : mkNodes (creator c Format.xml w.prec) (itemsOf c w.inp kind) with
+    | error e =>
+      rw [hm] at h
+      obtain ⟨ns', h⟩ := h
+      simp only [h]
+    | ok ns =>
+      rw [hm] at h
+      simp only at h ⊢
+      rw [h, hf]
+      simp [DocOf, setWriter, hfmt]
+
+/-- Everything a write call can do, for either variant of the code: the global precision and the constructor
+    arguments of all writers are as before; either no file changed (skipped / raised) or exactly the reported one. -/
+theorem writeStep_shape (sem : Sem) (c : Codec Input Item Node Bytes Date Content) (st : St Input Node Bytes Date)
+    (i : Nat) (kind : Kind) (file : Option String) (mode : Mode) (a : Bool) (date : Date) :
+    ∀ r, writeStep sem c st i kind file mode a date = r →
     r.1.gprec = st.gprec ∧ argsOf r.1 = argsOf st ∧
     ((r.1.fs = st.fs ∧ (r.2 = .skipped ∨ ∃ e, r.2 = .failed e)) ∨
      (∃ w p b, st.ws[i]? = some w ∧ p = resolveName c w kind file ∧ p ≠ "" ∧
         ¬ ((st.fs p).isSome = true ∧ keepExisting mode a = true) ∧
-        r.2 = .wrote p b ∧ r.1.fs = setFile st.fs p b ∧
-        b = (match w.fmt with
-             | .xml => c.dumpXml w.inp ((if sem.freshRoot then [] else w.root) ++
-                         newNodes c w.inp kind (if sem.ownPrec then w.prec else st.gprec))
-             | .pb => c.pbBytes w.inp kind))) := by
+        r.2 = .wrote p b ∧ r.1.fs = setFile st.fs p b)) := by
   intro r hr
   subst hr
   unfold writeStep
@@ -55,45 +371,90 @@ theorem writeStep_cases (sem : Sem) (c : Codec Input Node Bytes) (st : Proc Inpu
       split
       · simp
       · rename_i h2
-        split
-        · rename_i hf
+        have hfr := buildFor_frame sem c st i w kind date hw
+        rcases hb : buildFor sem c st i w kind date with ⟨st2, _ | e⟩
+        · rw [hb] at hfr
+          simp only
           split
+          · exact ⟨hfr.2.2, hfr.2.1, Or.inl ⟨hfr.1, Or.inr ⟨_, rfl⟩⟩⟩
           · rename_i h3
-            refine ⟨rfl, ?_, Or.inl ⟨rfl, Or.inr ⟨_, rfl⟩⟩⟩
-            exact map_set_same Writer.args st.ws i w _ hw rfl
-          · rename_i h3
-            refine ⟨rfl, ?_, Or.inr ⟨w, _, _, hw, rfl, h3, ?_, rfl, rfl, by simp [hf]⟩⟩
-            · exact map_set_same Writer.args st.ws i w _ hw rfl
-            · intro hk
-              simp [h3, hk.1, hk.2] at h2
-        · rename_i hf
-          have hne : resolveName c w kind file ≠ "" := by
-            intro he
-            simp [he, hf] at h1
-          refine ⟨rfl, rfl, Or.inr ⟨w, _, _, hw, rfl, hne, ?_, rfl, rfl, by simp [hf]⟩⟩
-          intro hk
-          simp [hne, hk.1, hk.2] at h2
+            split
+            · exact ⟨hfr.2.2, hfr.2.1, Or.inl ⟨hfr.1, Or.inr ⟨_, rfl⟩⟩⟩
+            · refine ⟨hfr.2.2, hfr.2.1, Or.inr ⟨w, _, _, hw, rfl, h3, ?_, rfl, ?_⟩⟩
+              · intro hk
+                simp [h3, hk.1, hk.2] at h2
+              · show setFile st2.fs _ _ = _
+                rw [hfr.1]
+        · rw [hb] at hfr
+          exact ⟨hfr.2.2, hfr.2.1, Or.inl ⟨hfr.1, Or.inr ⟨_, rfl⟩⟩⟩
 
-theorem step_gprec_write (sem : Sem) (c : Codec Input Node Bytes) (st : Proc Input Node Bytes)
-    (i : Nat) (kind : Kind) (file : Option String) (mode : Mode) (a : Bool) :
-    (step sem c st (.write i kind file mode a)).1.gprec = st.gprec :=
-  (writeStep_cases sem c st i kind file mode a _ rfl).1
+/-- The decision table of a write call, in terms of the pure `render` only. -/
+def expected (c : Codec Input Item Node Bytes Date Content) (st : St Input Node Bytes Date)
+    (w : Writer Input Node Date) (kind : Kind) (file : Option String) (mode : Mode) (a : Bool) (date : Date) :
+    Outcome Bytes :=
+  let name := resolveName c w kind file
+  if name = "" && !(w.fmt == .xml && kind == .scenarioOnly) then .skipped else
+  if name ≠ "" && (st.fs name).isSome && keepExisting mode a then .skipped else
+  match render c w.fmt w.inp kind w.prec date with
+  | .error e => .failed e
+  | .ok b => if name = "" then .failed .other else .wrote name b
 
-theorem argsOf_step (sem : Sem) (c : Codec Input Node Bytes) (st : Proc Input Node Bytes) (op : Op Input) :
-    argsOf (step sem c st op).1 = argsOf st ++ newsOf [op] := by
+/-- The mechanism (reset, install, header, loops reading the global at every site, restore, dump from the document)
+    produces exactly the decision table over the pure `render` at the writer's own arguments. -/
+theorem writeStep_repaired_outcome (c : Codec Input Item Node Bytes Date Content) (st : St Input Node Bytes Date)
+    (i : Nat) (w : Writer Input Node Date) (kind : Kind) (file : Option String) (mode : Mode) (a : Bool) (date : Date)
+    (hw : st.ws[i]? = some w) :
+    (writeStep repaired c st i kind file mode a date).2 = expected c st w kind file mode a date := by
+  unfold writeStep expected
+  simp only [hw]
+  split
+  · rfl
+  · split
+    · rfl
+    · have hb := buildFor_repaired c st i w kind date hw
+      unfold render
+      cases hm : mkNodes (creator c w.fmt w.prec) (itemsOf c w.inp kind) with
+      | error e =>
+        rw [hm] at hb
+        rcases hbf : buildFor repaired c st i w kind date with ⟨st2, o⟩
+        rw [hbf] at hb
+        simp only at hb
+        subst hb
+        rfl
+      | ok ns =>
+        rw [hm] at hb
+        simp only at hb
+        rw [hb]
+        simp only
+        split
+        · rfl
+        · have hg : (DocOf st i w (some date) ns).ws[i]? = some { w with date := some date, root := ns } :=
+            setWriter_get st i w _ hw
+          simp only [hg]
+
+/-! ### histories -/
+
+theorem step_gprec_write (sem : Sem) (c : Codec Input Item Node Bytes Date Content) (st : St Input Node Bytes Date)
+    (i : Nat) (kind : Kind) (file : Option String) (mode : Mode) (a : Bool) (date : Date) :
+    (step sem c st (.write i kind file mode a date)).1.gprec = st.gprec :=
+  (writeStep_shape sem c st i kind file mode a date _ rfl).1
+
+theorem argsOf_step (sem : Sem) (c : Codec Input Item Node Bytes Date Content) (st : St Input Node Bytes Date)
+    (op : Op Input Date) : argsOf (step sem c st op).1 = argsOf st ++ newsOf [op] := by
   cases op with
   | new f i p => simp [step, argsOf, newsOf, Writer.args]
-  | write i kind file mode a =>
-    have := (writeStep_cases sem c st i kind file mode a _ rfl).2.1
+  | write i kind file mode a date =>
+    have := (writeStep_shape sem c st i kind file mode a date _ rfl).2.1
     simpa [step, newsOf] using this
 
-theorem newsOf_append (l1 l2 : List (Op Input)) : newsOf (l1 ++ l2) = newsOf l1 ++ newsOf l2 := by
+theorem newsOf_append (l1 l2 : List (Op Input Date)) : newsOf (l1 ++ l2) = newsOf l1 ++ newsOf l2 := by
   induction l1 with
   | nil => rfl
   | cons op r ih => cases op <;> simp [newsOf, ih]
 
-theorem argsOf_run (sem : Sem) (c : Codec Input Node Bytes) :
-    ∀ (ops : List (Op Input)) (st : Proc Input Node Bytes), argsOf (runSt sem c st ops) = argsOf st ++ newsOf ops
+theorem argsOf_run (sem : Sem) (c : Codec Input Item Node Bytes Date Content) :
+    ∀ (ops : List (Op Input Date)) (st : St Input Node Bytes Date),
+      argsOf (runSt sem c st ops) = argsOf st ++ newsOf ops
   | [], st => by simp [runSt, run, newsOf]
   | op :: ops, st => by
     have ih := argsOf_run sem c ops (step sem c st op).1
@@ -102,21 +463,14 @@ theorem argsOf_run (sem : Sem) (c : Codec Input Node Bytes) :
     rw [ih, h1, List.append_assoc, ← newsOf_append]
     rfl
 
-theorem runSt_append (sem : Sem) (c : Codec Input Node Bytes) :
-    ∀ (l1 l2 : List (Op Input)) (st : Proc Input Node Bytes),
-      runSt sem c st (l1 ++ l2) = runSt sem c (runSt sem c st l1) l2
-  | [], _, _ => rfl
-  | op :: l1, l2, st => by
-    have ih := runSt_append sem c l1 l2 (step sem c st op).1
-    simpa [runSt, run] using ih
+theorem runSt_cons (sem : Sem) (c : Codec Input Item Node Bytes Date Content) (st : St Input Node Bytes Date)
+    (op : Op Input Date) (ops : List (Op Input Date)) :
+    runSt sem c st (op :: ops) = runSt sem c (step sem c st op).1 ops := rfl
 
-theorem runSt_cons (sem : Sem) (c : Codec Input Node Bytes) (st : Proc Input Node Bytes) (op : Op Input)
-    (ops : List (Op Input)) : runSt sem c st (op :: ops) = runSt sem c (step sem c st op).1 ops := rfl
-
-/-- The `n`-th outcome of a history is the outcome of its `n`-th operation in the state the
-    first `n` operations lead to. -/
-theorem runOut_get (sem : Sem) (c : Codec Input Node Bytes) :
-    ∀ (ops : List (Op Input)) (st : Proc Input Node Bytes) (n : Nat) (op : Op Input),
+/-- The `n`-th outcome of a history is the outcome of its `n`-th operation in the state the first `n` operations
+    lead to. -/
+theorem runOut_get (sem : Sem) (c : Codec Input Item Node Bytes Date Content) :
+    ∀ (ops : List (Op Input Date)) (st : St Input Node Bytes Date) (n : Nat) (op : Op Input Date),
       ops[n]? = some op →
       (runOut sem c st ops)[n]? = some (step sem c (runSt sem c st (ops.take n)) op).2
   | [], _, _, _, h => by simp at h
@@ -129,35 +483,26 @@ theorem runOut_get (sem : Sem) (c : Codec Input Node Bytes) :
     have ih := runOut_get sem c ops (step sem c st o).1 n op h
     simpa [runOut, run, runSt] using ih
 
-theorem newsOf_take_prefix (ops : List (Op Input)) (n : Nat) :
+theorem newsOf_take_prefix (ops : List (Op Input Date)) (n : Nat) :
     ∃ t, newsOf ops = newsOf (ops.take n) ++ t := by
   refine ⟨newsOf (ops.drop n), ?_⟩
   rw [← newsOf_append, List.take_append_drop]
 
-theorem getElem?_append_some {α : Type} (l t : List α) (i : Nat) (x : α) (h : l[i]? = some x) :
-    (l ++ t)[i]? = some x := by
-  have hi : i < l.length := by
-    rcases Nat.lt_or_ge i l.length with hlt | hge
-    · exact hlt
-    · simp [List.getElem?_eq_none hge] at h
-  rw [List.getElem?_append_left hi]
-  exact h
+/-- The global precision a history leaves: the precision of the last constructor, else the one it started with. -/
+def precAfter (g : Nat) : List (Op Input Date) → Nat
+  | [] => g
+  | .new _ _ p :: r => precAfter p r
+  | .write _ _ _ _ _ _ :: r => precAfter g r
 
-/-- A write that produced a file: which writer it was, and (for the code as it is now) what it wrote. -/
-theorem wrote_repaired (c : Codec Input Node Bytes) (st st' : Proc Input Node Bytes)
-    (i : Nat) (kind : Kind) (file : Option String) (mode : Mode) (a : Bool) (p : String) (b : Bytes)
-    (h : step repaired c st (.write i kind file mode a) = (st', .wrote p b)) :
-    ∃ w, st.ws[i]? = some w ∧ p = resolveName c w kind file ∧ p ≠ "" ∧
-      b = render c w.fmt w.inp kind w.prec ∧ st'.fs = setFile st.fs p b ∧ st'.gprec = st.gprec := by
-  simp only [step] at h
-  have hc := writeStep_cases repaired c st i kind file mode a _ h
-  obtain ⟨hg, _, hrest⟩ := hc
-  rcases hrest with ⟨_, h2⟩ | ⟨w, p', b', hw, hp, hne, _, ho, hfs, hb⟩
-  · rcases h2 with h2 | ⟨e, h2⟩ <;> simp at h2
-  · simp only [Outcome.wrote.injEq] at ho
-    obtain ⟨rfl, rfl⟩ := ho
-    refine ⟨w, hw, hp, hne, ?_, hfs, hg⟩
-    rw [hb]
-    cases hf : w.fmt <;> simp [render, repaired]
+theorem gprec_run (sem : Sem) (c : Codec Input Item Node Bytes Date Content) :
+    ∀ (ops : List (Op Input Date)) (st : St Input Node Bytes Date),
+      (runSt sem c st ops).gprec = precAfter st.gprec ops
+  | [], _ => rfl
+  | .new f i p :: r, st => by
+    rw [runSt_cons, gprec_run sem c r]
+    rfl
+  | .write i k f m a d :: r, st => by
+    rw [runSt_cons, gprec_run sem c r, step_gprec_write]
+    rfl
 
 end CR.Writer
